@@ -84,6 +84,12 @@ class Gen:
         if c < 0.85:
             i = self.r.choice([0, 1, 2, 3, 15])
             return self.push_int(i) + [f"gtxns {field}"], ("abs", i)
+        if c < 0.88:
+            # index taken from ANOTHER member's GroupIndex field: not the own index (must not be read as Self / Relative)
+            i = self.r.choice([0, 1])
+            if self.chance(0.5):
+                return [f"gtxn {i} GroupIndex", f"gtxns {field}"], ("abs", i)
+            return [f"gtxn {i} GroupIndex"] + self.push_int(1) + ["+", f"gtxns {field}"], ("abs", i + 1)
         k = self.r.choice([1, 2, -1, -2]) if self.chance(0.9) else 0
         if k >= 0:
             if self.chance(0.5):
